@@ -58,8 +58,31 @@ def txt(x):
     return x.decode("utf-8") if isinstance(x, bytes) else x
 
 
-def grammar(kind, enc, out):
+def _plain(v):
+    if isinstance(v, datetime):
+        return ("datetime", v.replace(tzinfo=None), None if v.tzinfo is None else v.utcoffset())
+    if isinstance(v, time):
+        return ("time", v.replace(tzinfo=None), v.tzinfo is not None)
+    if isinstance(v, tuple):
+        return tuple(_plain(x) for x in v)
+    return (type(v).__name__, v)
+
+
+def grammar(kind, enc, out, cls=None):
     t = txt(enc)
+    if cls is not None and isinstance(enc, bytes):
+        # the identity the module documents, taken literally: from_ical is handed exactly what to_ical returned (bytes for most
+        # types) and gives what it gives for the same text as str
+        try:
+            via_str = ("ok", _plain(cls.from_ical(t)))
+        except Exception as e:  # noqa: BLE001
+            via_str = ("raises", type(e).__name__)
+        try:
+            literal = ("ok", _plain(cls.from_ical(enc)))
+        except Exception as e:  # noqa: BLE001
+            literal = ("raises", type(e).__name__)
+        if literal != via_str and via_str[0] == "ok":
+            out.append(Failure("C03.roundtrip", f"from_ical-of-the-bytes-to_ical-returned-differs/{cls.__name__}", f"{enc!r}: {literal!r}, from the same text as str: {via_str!r}"[:300]))
     if not isinstance(t, str) or not re.fullmatch(G[kind], t):
         out.append(Failure("C03.grammar", f"grammar/{kind}", f"{t!r}"))
     if kind == "offset" and t in ("-0000", "-000000"):
@@ -120,7 +143,7 @@ def j_combined_and_subclasses(x, t, what, out):
 
 
 def j_date(d, out):
-    t = grammar("date", vDate(d).to_ical(), out)
+    t = grammar("date", vDate(d).to_ical(), out, vDate)
     back = vDate.from_ical(t)
     if type(back) is not date or back != d:
         out.append(Failure("C03.roundtrip", "roundtrip/date", f"{d!r} -> {t!r} -> {back!r}"))
@@ -136,7 +159,7 @@ def j_date(d, out):
 
 
 def j_datetime(dt, out):
-    t = grammar("datetime", vDatetime(dt).to_ical(), out)
+    t = grammar("datetime", vDatetime(dt).to_ical(), out, vDatetime)
     if (dt.tzinfo is not None) != t.endswith("Z"):
         out.append(Failure("C03.grammar", "grammar/datetime-utc-marker", f"{dt!r} -> {t!r}"))
     back = vDatetime.from_ical(t)
@@ -150,7 +173,7 @@ def j_datetime(dt, out):
 
 
 def j_time(tm, out):
-    t = grammar("time", vTime(tm).to_ical(), out)
+    t = grammar("time", vTime(tm).to_ical(), out, vTime)
     if (tm.tzinfo is not None) != t.endswith("Z"):
         out.append(Failure("C03.grammar", "grammar/time-utc-marker", f"{tm!r} -> {t!r}"))
     back = vTime.from_ical(t)
@@ -165,14 +188,14 @@ def j_time(tm, out):
 
 
 def j_offset(td, out):
-    t = grammar("offset", vUTCOffset(td).to_ical(), out)
+    t = grammar("offset", vUTCOffset(td).to_ical(), out, vUTCOffset)
     back = vUTCOffset.from_ical(t)
     if back != td:
         out.append(Failure("C03.roundtrip", "roundtrip/offset", f"{td!r} -> {t!r} -> {back!r}"))
 
 
 def j_duration(td, out):
-    t = grammar("duration", vDuration(td).to_ical(), out)
+    t = grammar("duration", vDuration(td).to_ical(), out, vDuration)
     back = vDuration.from_ical(t)
     if back != td:
         out.append(Failure("C03.roundtrip", "roundtrip/duration", f"{td!r} -> {t!r} -> {back!r}"))
@@ -295,37 +318,37 @@ def judge(case):
             j_time(time(*case["v"], tzinfo=UTC if case["utc"] else None), out)
         elif k == "int":
             n = int(case["v"])
-            t = grammar("int", vInt(n).to_ical(), out)
+            t = grammar("int", vInt(n).to_ical(), out, vInt)
             b = vInt.from_ical(t)
             if b != n or not isinstance(b, int):
                 out.append(Failure("C03.roundtrip", "roundtrip/int", f"{n} -> {t!r} -> {b!r}"))
         elif k == "float":
             x = float(case["v"])
-            t = grammar("float", vFloat(x).to_ical(), out)
+            t = grammar("float", vFloat(x).to_ical(), out, vFloat)
             b = vFloat.from_ical(t)
             if not (b == x and math.copysign(1, b) == math.copysign(1, x)):
                 out.append(Failure("C03.roundtrip", "roundtrip/float", f"{x!r} -> {t!r} -> {b!r}"))
         elif k == "bool":
             v = bool(case["v"])
-            t = grammar("bool", vBoolean(v).to_ical(), out)
+            t = grammar("bool", vBoolean(v).to_ical(), out, vBoolean)
             if bool(vBoolean.from_ical(t)) is not v:
                 out.append(Failure("C03.roundtrip", "roundtrip/bool", f"{v} -> {t!r}"))
         elif k == "binary":
             if "hex" in case:          # arbitrary octets (the point of BINARY), not only encoded text
                 raw = bytes.fromhex(case["hex"])
-                t = grammar("binary", vBinary(raw).to_ical(), out)
+                t = grammar("binary", vBinary(raw).to_ical(), out, vBinary)
                 b = vBinary.from_ical(t)
                 if b != raw or base64.b64decode(t) != raw:
                     out.append(Failure("C03.roundtrip", "roundtrip/binary-octets", f"{raw!r} -> {t!r} -> {b!r}"))
             else:
                 s = case["v"]
-                t = grammar("binary", vBinary(s).to_ical(), out)
+                t = grammar("binary", vBinary(s).to_ical(), out, vBinary)
                 b = vBinary.from_ical(t)
                 if b != s.encode("utf-8") or base64.b64decode(t) != s.encode("utf-8"):
                     out.append(Failure("C03.roundtrip", "roundtrip/binary", f"{s!r} -> {t!r} -> {b!r}"))
         elif k == "geo":
             la, lo = float(case["lat"]), float(case["lon"])
-            t = grammar("geo", vGeo((la, lo)).to_ical(), out)
+            t = grammar("geo", vGeo((la, lo)).to_ical(), out, vGeo)
             b = vGeo.from_ical(t)
             if tuple(b) != (la, lo):
                 out.append(Failure("C03.roundtrip", "roundtrip/geo", f"{(la, lo)!r} -> {t!r} -> {b!r}"))
@@ -349,7 +372,7 @@ def judge(case):
                 out.append(Failure("C03.roundtrip", "roundtrip/weekday", f"{s!r} -> {t!r} -> {(b.weekday, b.relative)!r}"))
         elif k == "freq":
             s = case["v"]
-            t = grammar("freq", vFrequency(s).to_ical(), out)
+            t = grammar("freq", vFrequency(s).to_ical(), out, vFrequency)
             b = vFrequency.from_ical(t)
             if t != s.upper() or str(b) != s.upper():
                 out.append(Failure("C03.roundtrip", "roundtrip/freq", f"{s!r} -> {t!r} -> {b!r}"))
@@ -367,7 +390,7 @@ def judge(case):
                 second = timedelta(seconds=case["dur"])
             else:
                 second = start + timedelta(seconds=case["end_after"])
-            t = grammar("period", vPeriod((start, second)).to_ical(), out)
+            t = grammar("period", vPeriod((start, second)).to_ical(), out, vPeriod)
             b = vPeriod.from_ical(t)
             ok = isinstance(b, tuple) and len(b) == 2 and same_dt(b[0], start) and \
                 (b[1] == second if isinstance(second, timedelta) else same_dt(b[1], second))
